@@ -20,7 +20,7 @@ HEADER = "#![allow(dead_code, unused, non_camel_case_types, non_snake_case, non_
 def select_subjects(corp, tier):
     """a sample rich in what could depend on hash order: many variants, wide values, renames"""
     picks = []
-    per_family = {"R": 40, "G": 60 if tier == "thorough" else 24, "N": 18, "B": 6, "A": 40 if tier == "thorough" else 12,
+    per_family = {"S": 20, "V": 40, "R": 60, "G": 60 if tier == "thorough" else 24, "N": 18, "B": 6, "A": 40 if tier == "thorough" else 12,
                   "X": 60 if tier == "thorough" else 16, "M": 20 if tier == "thorough" else 8}
     seen = {}
     for s in corp.subjects:
@@ -71,19 +71,37 @@ def split_modules(text):
     return {k: v.rstrip() for k, v in out.items()}
 
 
-def run(corp, tier, work, k_runs):
+def run(corp, tier, work, k_runs, exclude=()):
     import probes
     so = probes.find_enum_tools_so(work)
     d = os.path.join(work, "expand", tier)
     os.makedirs(d, exist_ok=True)
-    subs = select_subjects(corp, tier)
+    subs = [s for s in select_subjects(corp, tier) if s.sid not in exclude]
     src = os.path.join(d, "expn.rs")
-    write_source(src, subs)
+    dropped = []
+    for attempt in range(8):
+        write_source(src, subs)
+        rc0, text0, err0 = expand_once((src, so, 0))
+        if rc0 == 0:
+            break
+        # drop the subjects whose declarations the errors point into, and retry
+        lines = [int(x) for x in re.findall(r"expn\.rs:(\d+):", err0)]
+        text = open(src).read().split("\n")
+        bad = set()
+        for ln in lines:
+            j = ln - 1
+            while j >= 0 and not re.match(r"pub mod [md]_(\w+) \{", text[j]):
+                j -= 1
+            if j >= 0:
+                bad.add(re.match(r"pub mod [md]_(\w+) \{", text[j]).group(1))
+        if not bad:
+            raise RuntimeError("expansion failed: " + err0)
+        dropped += sorted(bad)
+        subs = [s for s in subs if s.sid not in bad]
+    else:
+        raise RuntimeError("expansion failed repeatedly: " + err0)
     with ThreadPoolExecutor(max_workers=16) as ex:
-        res = list(ex.map(expand_once, [(src, so, i) for i in range(k_runs)]))
-    rc0, text0, err0 = res[0]
-    if rc0 != 0:
-        raise RuntimeError("expansion failed: " + err0)
+        res = [(rc0, text0, err0)] + list(ex.map(expand_once, [(src, so, i) for i in range(1, k_runs)]))
     hashes = [hashlib.sha256(t.encode()).hexdigest()[:16] for _, t, _ in res]
     diffs = []
     mods0 = split_modules(text0)
@@ -107,7 +125,7 @@ def run(corp, tier, work, k_runs):
                     break
     open(os.path.join(d, "expanded.rs"), "w").write(text0)
     return {"k_runs": k_runs, "hashes": hashes, "diffs": diffs, "n_subjects": len(subs), "bytes": len(text0),
-            "modules": {k: v for k, v in mods0.items() if not k.startswith("dup:")}, "sids": [s.sid for s in subs]}
+            "modules": {k: v for k, v in mods0.items() if not k.startswith("dup:")}, "sids": [s.sid for s in subs], "dropped_not_compiling": dropped}
 
 
 # ------------------------------------------------------------------ structure extraction
